@@ -645,6 +645,82 @@ def r76(db, ctx):
     ctx.floor('R7.6', n, 3, 'StripedScores reductions')
 
 
+def generic_argmax_form(f):
+    """(True, None) when f is the scan `best := first cell; for every cell x at (i, j): if x >= best { best, coords := x, (i, j) }; Some(coords)`,
+    whatever the loop spelling and the names / grouping of the state variables; else (False, reason)."""
+    from lm import iteralg as IA
+    R = X.Rec(f)
+    C = IA.Canon(f, R)
+    in_loop = lambda b: any(b in L['body'] for L in f.loops())
+    val = lambda d: C.canon(R.call(d[2]) if d[1] == 'term' else R.rvalue(d[2]))
+    # the running best value: a local updated in the loops with a cell of the matrix, from an initial cell of the same matrix
+    cands = []
+    for l, ds in f.defs().items():
+        upd = [d for d in ds if in_loop(d[0])]
+        ini = [d for d in ds if not in_loop(d[0])]
+        if len(upd) != 1 or len(ini) != 1:
+            continue
+        v = val(upd[0])
+        if v[0] == 'at' and v[1][0] == 'at' and IA.is_pos(v[2]) and IA.is_pos(v[1][2]):
+            cands.append((l, upd[0], ini[0], v))
+    if len(cands) != 1:
+        return False, f'reason=unrecognised-shape: {len(cands)} running-best locals updated with a matrix cell'
+    S, upd, ini, cell = cands[0]
+    M, prow, pcol = cell[1][1], cell[1][2], cell[2]
+    if not (common.is_call_on(M, 'StripedScores::matrix', ('p', 2)) or norm(M) == ('p', 2)):
+        return False, f'the scanned matrix is {X.show(M, 60)}, not the scores argument'
+    er, ec = C.extents.get(prow[1]), C.extents.get(pcol[1])
+    rows_ok = er in ([('rows', M)], [('sub', ('call', 'lightmotif::dense::DenseMatrix::rows', (M,)), ('k', 0))])
+    cols_ok = bool(ec) and len(ec) == 1 and ((ec[0][0] == 'sub' and ec[0][2] == ('k', 0) and common.is_usize_const(ec[0][1], 'C')) or ec[0] == ('len', ('at', M, prow)))
+    if not rows_ok or not cols_ok:
+        return False, f'the scan does not cover all rows and all C columns (row extent {er}, column extent {ec})'
+    for lid in (prow[1], pcol[1]):
+        h = common.loop_of_elem(f, ('elem', None, lid)) if not isinstance(lid, tuple) else lid[1]
+        L = [L_ for L_ in f.loops() if L_['header'] == h]
+        can = f.postdominators()
+        if not L or len([1 for x, y in L[0]['exits'] if y in can]) != 1:
+            return False, 'a scan loop can be left early'
+    iv = val(ini)
+    if not (iv[0] == 'at' and any(x == ('p', 2) for x in X.walk(iv))):
+        return False, f'the running best starts from {X.show(iv, 60)}, not from a cell of the matrix'
+    # guard: cell >= best, decided inside the inner loop
+    rels = G.relations(f, R, upd[0])
+    g = [r for r in rels if r[0] in ('ge', 'le') and in_loop(r[-1])]
+    g = [r for r in g if (r[0] == 'ge' and C.canon(r[1]) == cell and norm(r[2]) == ('v', S)) or (r[0] == 'le' and C.canon(r[2]) == cell and norm(r[1]) == ('v', S))]
+    if not g:
+        return False, 'comparison is not cell >= running best'
+    gd = g[-1][-1]
+    # the coordinates travel with the value: updated under the same comparison, to the position of the same cell
+    coords = {}
+    for l, ds in f.defs().items():
+        for d in ds:
+            if l == S or not in_loop(d[0]) or not f.dominates(gd, d[0]):
+                continue
+            if not any(r[-1] == gd for r in G.relations(f, R, d[0])):
+                continue
+            v = val(d)
+            if v == prow:
+                coords[l] = 'row'
+            elif v == pcol:
+                coords[l] = 'col'
+            elif v[0] == 'call' and v[1].endswith('MatrixCoordinates::new') and tuple(v[2]) == (prow, pcol):
+                coords[l] = 'both'
+    ret = [norm(R.rvalue(st['rv'])) for blk in f.blocks for st in blk['stmts'] if st['k'] == 'assign' and st['p']['l'] == 0 and not st['p']['pr']
+           and st['rv']['k'] == 'agg' and st['rv'].get('variant') == 'Some']
+    if len(ret) != 1:
+        return False, f'reason=unrecognised-shape: {len(ret)} Some(..) results'
+    r = ret[0][2][0] if ret[0][0] == 'agg' and ret[0][2] else None
+    okr = False
+    if r is not None and r[0] == 'v' and coords.get(r[1]) == 'both':
+        okr = True
+    elif r is not None and r[0] == 'call' and r[1].endswith('MatrixCoordinates::new') and len(r[2]) == 2:
+        a_, b_ = norm(r[2][0]), norm(r[2][1])
+        okr = a_[0] == 'v' and b_[0] == 'v' and coords.get(a_[1]) == 'row' and coords.get(b_[1]) == 'col'
+    if not okr:
+        return False, 'row / col / value are not the same cell or not updated under one comparison (the returned coordinates do not travel with the running best)'
+    return True, None
+
+
 def r7_generic(db, ctx):
     ctx.rule('R7.4', 'generic argmax keeps (row, col, value) together under a comparison of the cell with the current best; generic max reads the cell at argmax')
     fs = [g for g in db.by_short.get('lightmotif::pli::Maximum::argmax', []) if g.raw.get('trait_default_of')]
@@ -652,30 +728,7 @@ def r7_generic(db, ctx):
         ctx.fail('R7.4', 'lightmotif::pli::Maximum::argmax', 'default body', 'reason=anchor-missing')
         return
     f = fs[0]
-    R = X.Rec(f)
-    named = {f.local_name(l): l for l in range(len(f.locals)) if f.local_name(l)}
-    upd = {}
-    for bi, blk in enumerate(f.blocks):
-        if blk['cleanup'] or not any(bi in L['body'] for L in f.loops()):
-            continue
-        for st in blk['stmts']:
-            if st['k'] == 'assign' and not st['p']['pr'] and f.local_name(st['p']['l']) in ('best_row', 'best_col', 'best_score'):
-                rels = G.relations(f, R, bi)
-                g = [r for r in rels if r[0] in ('ge', 'gt')]
-                upd[f.local_name(st['p']['l'])] = (norm(R.rvalue(st['rv'])), g[-1] if g else None)
-    ok = set(upd) == {'best_row', 'best_col', 'best_score'}
-    why = f'updates {sorted(upd)}'
-    if ok:
-        (vr, gr), (vc, gc), (vs, gs) = upd['best_row'], upd['best_col'], upd['best_score']
-        cf = common.cell_form(vs)
-        rowm = m(('fld', ('elem', ('call~', 'enumerate', ('_',)), '$L'), '1'), norm(cf[0])) if cf is not None else None
-        if not (cf is not None and rowm is not None and gr == gc == gs and gr is not None and vr == ('fld', norm(cf[0])[1], '0') and norm(vc) == norm(cf[1])
-                and common.covers_all_columns(cf[3], cf[0])):
-            ok = False
-            why = 'row / col / value are not the same cell (over all C columns) or not under one comparison'
-        elif not (norm(gr[1]) == vs and norm(gr[2])[0] == 'v'):
-            ok = False
-            why = 'comparison is not cell >= best_score'
+    ok, why = generic_argmax_form(f)
     (ctx.ok if ok else ctx.fail)('R7.4', f, 'generic argmax: (best_row, best_col, best_score) := (i, j, row[j]) when row[j] >= best_score', *([['all rows, all C columns']] if ok else [why]))
     fm = [g for g in db.by_short.get('lightmotif::pli::Maximum::max', []) if g.raw.get('trait_default_of')]
     if fm:
